@@ -270,3 +270,90 @@ func c12ReloadScript(c *core.Ctx) {
 		}
 	}
 }
+
+// ---------------------------------------------------------------------------------------------
+// Methods of the model that only the templates call (through reflection: invisible to the call graph).
+// ---------------------------------------------------------------------------------------------
+
+func init() {
+	props := map[string]bool{}
+	for _, g := range tmplGroups {
+		for _, p := range g.props {
+			props[p] = true
+		}
+	}
+	for _, p := range sortedKeys(props) {
+		addRule(p, &core.Rule{ID: p + ".template-methods", Floor: 1, Run: templateMethods,
+			Doc: "The templates call methods of the model by name (`$authCfg.PathIDs $i`, `$backend.PathConfig \"AuthExternal\"`, `$host.HasTLS` …); text/template resolves them by reflection, so no call graph contains these calls. Every exported method of pkg/haproxy/types (and of the data structures handed to the templates) whose name occurs as a field or method identifier in a template is anchored here, which puts it and its callees into the scope of the generated tables: what such a method answers is printed into the configuration."})
+	}
+}
+
+func templateMethods(c *core.Ctx) {
+	names := map[string]bool{}
+	for _, f := range tmplFiles {
+		t, err := c.LoadTemplate(f)
+		if err != nil {
+			c.MissingAnchor(f + ": " + err.Error())
+			continue
+		}
+		var walk func(n parse.Node)
+		walk = func(n parse.Node) {
+			switch x := n.(type) {
+			case *parse.FieldNode:
+				for _, id := range x.Ident {
+					names[id] = true
+				}
+			case *parse.VariableNode:
+				for _, id := range x.Ident[1:] {
+					names[id] = true
+				}
+			case *parse.ChainNode:
+				for _, id := range x.Field {
+					names[id] = true
+				}
+				walk(x.Node)
+			case *parse.PipeNode:
+				for _, cmd := range x.Cmds {
+					walk(cmd)
+				}
+			case *parse.CommandNode:
+				for _, a := range x.Args {
+					walk(a)
+				}
+			}
+		}
+		for _, name := range t.TreeNames() {
+			t.Walk(name, func(n core.TNode) {
+				switch x := n.Node.(type) {
+				case *parse.ActionNode:
+					walk(x.Pipe)
+				case *parse.TemplateNode:
+					if x.Pipe != nil {
+						walk(x.Pipe)
+					}
+				case *parse.IfNode:
+					walk(x.Pipe)
+				case *parse.RangeNode:
+					walk(x.Pipe)
+				case *parse.WithNode:
+					walk(x.Pipe)
+				}
+			})
+		}
+	}
+	n := 0
+	for _, fn := range c.SrcFuncs() {
+		pk := core.PkgOf(fn)
+		if pk != "haproxy/types" && pk != "haproxy" {
+			continue
+		}
+		if fn.Signature.Recv() == nil || fn.Parent() != nil {
+			continue
+		}
+		if names[fn.Name()] && fn.Object() != nil && fn.Object().Exported() {
+			c.Touch(fn)
+			n++
+		}
+	}
+	c.Check(n >= 40, "model methods called by the templates", "", fmt.Sprintf("%d methods anchored", n), fmt.Sprintf("only %d methods of the model match identifiers of the templates", n))
+}
